@@ -1374,10 +1374,12 @@ impl MutableRepo {
                         dependents.push(parent);
                         continue;
                     };
-                    if let Some(rewrite) = self.parent_mapping.get(parent.id()) {
-                        for target in rewrite.new_parent_ids() {
-                            if to_visit_set.contains(target) && !visited.contains(target) {
-                                dependents.push(store.get_commit_async(target).await);
+                    if self.parent_mapping.contains_key(parent.id()) {
+                        // Follow the mapping transitively, like the rebase itself does when it
+                        // computes the new parents.
+                        for target in self.new_parents(slice::from_ref(parent.id())) {
+                            if to_visit_set.contains(&target) && !visited.contains(&target) {
+                                dependents.push(store.get_commit_async(&target).await);
                             }
                         }
                     }
